@@ -30,7 +30,7 @@ fn any_ttl() -> (u64, u32) {
     (s, n)
 }
 
-//@harness time_expiry_exact props=C03,C04,C05 target=Time::is_expired bounded=no claim=for all t0 <= t1 and every TTL d > 0 up to Duration::MAX: a Time created at t0 with TTL d reports is_expired() at t1 iff t1 - t0 >= d, and is_zero() is false
+//@harness time_expiry_exact props=C03,C04,C05,C20 target=Time::is_expired bounded=no claim=for all t0 <= t1 and every TTL d > 0 up to Duration::MAX: a Time created at t0 with TTL d reports is_expired() at t1 iff t1 - t0 >= d, and is_zero() is false
 #[kani::proof]
 #[kani::stub(std::time::SystemTime::now, fake_now)]
 #[kani::unwind(3)]
@@ -51,7 +51,7 @@ fn time_expiry_exact() {
     assert!(!t.is_zero());
 }
 
-//@harness time_ttl_remaining props=C03,C04,C05 target=Time::get_ttl bounded=no claim=for all t0 <= t1, d > 0: get_ttl() at t1 is d - (t1 - t0) while that is positive and Duration::ZERO afterwards (so it is at most d and never increases)
+//@harness time_ttl_remaining props=C03,C04,C05,C20 target=Time::get_ttl bounded=no claim=for all t0 <= t1, d > 0: get_ttl() at t1 is d - (t1 - t0) while that is positive and Duration::ZERO afterwards (so it is at most d and never increases)
 #[kani::proof]
 #[kani::stub(std::time::SystemTime::now, fake_now)]
 #[kani::unwind(3)]
@@ -76,7 +76,7 @@ fn time_ttl_remaining() {
     }
 }
 
-//@harness time_without_ttl_never_expires props=C03,C04,C05 target=Time::now bounded=no claim=a Time created by Time::now() (no TTL) is is_zero() at every later instant and reports get_ttl() == Duration::MAX; is_zero() <=> d == 0 for now_with_expiration(d)
+//@harness time_without_ttl_never_expires props=C03,C04,C05,C20 target=Time::now bounded=no claim=a Time created by Time::now() (no TTL) is is_zero() at every later instant and reports get_ttl() == Duration::MAX; is_zero() <=> d == 0 for now_with_expiration(d)
 #[kani::proof]
 #[kani::stub(std::time::SystemTime::now, fake_now)]
 #[kani::unwind(3)]
@@ -94,7 +94,7 @@ fn time_without_ttl_never_expires() {
     assert!(u.is_zero() == (ds == 0 && dn == 0));
 }
 
-//@harness time_deadline_second props=C03,C04,C05 target=Time::unix bounded=no claim=for every Duration d: unix() is the whole second of created_at + d, s0 + ds + carry(n0 + dn >= 10^9), saturating at u64::MAX without panicking; storage_bucket is that + 1 saturating at i64::MAX; cleanup_bucket(now) is the current second
+//@harness time_deadline_second props=C03,C04,C05,C20 target=Time::unix bounded=no claim=for every Duration d: unix() is the whole second of created_at + d, s0 + ds + carry(n0 + dn >= 10^9), saturating at u64::MAX without panicking; storage_bucket is that + 1 saturating at i64::MAX; cleanup_bucket(now) is the current second
 #[kani::proof]
 #[kani::stub(std::time::SystemTime::now, fake_now)]
 #[kani::unwind(3)]
@@ -115,7 +115,7 @@ fn time_deadline_second() {
     assert!(cleanup_bucket(now) == s0 as i64);
 }
 
-//@harness time_due_bucket_implies_expired props=C03,C04,C05 target=Time::is_expired bounded=no claim=(the axiom assumed in prelude/time_model.rs) if the storage bucket of a TTL deadline (deadline second + 1) is not after the current second then the entry is expired at that instant; so every entry found in a due bucket under its own deadline is really expired
+//@harness time_due_bucket_implies_expired props=C03,C04,C05,C20 target=Time::is_expired bounded=no claim=(the axiom assumed in prelude/time_model.rs) if the storage bucket of a TTL deadline (deadline second + 1) is not after the current second then the entry is expired at that instant; so every entry found in a due bucket under its own deadline is really expired
 #[kani::proof]
 #[kani::stub(std::time::SystemTime::now, fake_now)]
 #[kani::unwind(3)]
